@@ -34,7 +34,9 @@ func domainPrefixBasic(domain string) (string, error) {
 	// 4. If the output of step 3 has a "-" (hyphen) at both positions 3 and
 	//    4, then to the output of step 3, add a prefix of "0-" and add a
 	//    suffix of "-0".
-	if len(prefix) >= 4 && prefix[2] == '-' && prefix[3] == '-' {
+	//    Positions count characters, not bytes: the output of step 1 may
+	//    contain non-ASCII characters.
+	if runes := []rune(prefix); len(runes) >= 4 && runes[2] == '-' && runes[3] == '-' {
 		prefix = "0-" + prefix + "-0"
 	}
 
